@@ -234,6 +234,9 @@ package dagsync
 //@   assumes str(cid.Undef.str) == str("")
 //@   ensures-local old(s.expSyncClosed) ==> result1 != nil && count("wg.add:expSyncWG") == 0 && count("call:handle") == 0
 //@   ensures-local !old(s.expSyncClosed) ==> count("wg.add:expSyncWG") == 1 && count("wg.done:expSyncWG") == 1
+// the sync stays registered (Close waits for it) until all of its work is done:
+//@   ensures-local before("wg.add:expSyncWG", "call:handle") && before("wg.add:expSyncWG", "call:GetHead") && before("wg.add:expSyncWG", "call:makeSyncer")
+//@   ensures-local notafter("call:handle", "wg.done:expSyncWG") && notafter("call:GetHead", "wg.done:expSyncWG") && notafter("call:makeSyncer", "wg.done:expSyncWG") && notafter("call:sendSyncFinishedEvent", "wg.done:expSyncWG") && notafter("call:updatePeerstore", "wg.done:expSyncWG") && notafter("call:getOrCreateHandler", "wg.done:expSyncWG")
 //@   ensures-local result1 != nil ==> count("call:sendSyncFinishedEvent") == 0 && count("call:updatePeerstore") == 0 && str(result0.str) == str("")
 //@   ensures-local headFailed ==> result1 != nil && count("call:handle") == 0
 //@   ensures-local count("call:handle") <= 1 && count("call:sendSyncFinishedEvent") <= 1
@@ -335,6 +338,8 @@ package dagsync
 //@   at call handle#1: assert arg2 == entCid && arg3 == sel && arg5 == bh && arg6 == segdl && str(arg7.str) == str("")
 //@   ensures-local entCid != cid.Undef && old(s.expSyncClosed) ==> result != nil && count("wg.add:expSyncWG") == 0 && count("call:handle") == 0
 //@   ensures-local entCid != cid.Undef && !old(s.expSyncClosed) ==> count("wg.add:expSyncWG") == 1 && count("wg.done:expSyncWG") == 1
+//@   ensures-local before("wg.add:expSyncWG", "call:handle") && before("wg.add:expSyncWG", "call:makeSyncer")
+//@   ensures-local notafter("call:handle", "wg.done:expSyncWG") && notafter("call:makeSyncer", "wg.done:expSyncWG") && notafter("call:getOrCreateHandler", "wg.done:expSyncWG")
 //@   ensures-local entCid == cid.Undef ==> result == nil && count("call:handle") == 0 && count("wg.add:expSyncWG") == 0
 //@   ensures-local count("call:sendSyncFinishedEvent") == 0
 
